@@ -5,6 +5,8 @@ import (
 	"strings"
 	"sync"
 
+	"github.com/antchfx/xpath"
+
 	"verif/internal/xdoc"
 	"verif/internal/xref"
 )
@@ -349,5 +351,81 @@ func c14Big(c *Case) {
 	}
 	c.Count("big:namespaces")
 	c.Nontrivial("nsbig|" + src)
-	c.SampleEvery(37, func() interface{} { return map[string]interface{}{"family": "big", "expr": src, "namespaces": nsBigFan, "map_entries": len(m)} })
+	c.SampleEvery(37, func() interface{} {
+		return map[string]interface{}{"family": "big", "expr": src, "namespaces": nsBigFan, "map_entries": len(m)}
+	})
+}
+
+// ---- C14: one text under several maps, in one process ----
+
+// c14MapOrder: the SAME expression text is compiled under maps that bind its prefixes differently (swapped,
+// merged, to a third URI, not at all), in several orders and twice within one process, also through Compile and
+// MustCompile in between; every compilation must follow the map it was given (nothing about an earlier
+// compilation of the same text may be remembered).
+var c14MoDoc = func() *xdoc.Doc {
+	d := xdoc.NewDoc()
+	d.HasNS = true
+	r := d.Root.AddElem("", "r", "")
+	for i, u := range []string{"urn:a", "urn:b", "urn:c", ""} {
+		for j, pre := range []string{"p", "q", "z"} {
+			if u == "" {
+				pre = ""
+			}
+			e := r.AddElem(pre, "x", u)
+			e.AddAttr("", "id", "", fmt.Sprint(i*3+j))
+			if u != "" {
+				e.AddAttr(pre, "a", u, "v")
+			}
+			e.AddElem(pre, "y", u)
+		}
+	}
+	return d.Finish()
+}()
+
+var c14MoTexts = []string{"//p:x", "//q:x", "/r/p:x/@id", "//p:x/q:y", "//p:x/p:y", "//@p:a", "//q:x/@q:a", "count(//p:x)", "//p:x | //q:x", "//*[self::p:x]/@id", "//p:x[@p:a]", "//p:x[q:y]", "name(//p:x)", "/r/p:x[2]", "//x", "//p:y/.."}
+var c14MoMaps = []map[string]string{
+	{"p": "urn:a", "q": "urn:b"}, {"p": "urn:b", "q": "urn:a"}, {"p": "urn:a", "q": "urn:a"}, {"p": "urn:c", "q": "urn:b"}, {"p": "urn:none", "q": "urn:b"}, {"p": "urn:b", "q": "urn:c", "z": "urn:a"},
+}
+
+func c14MapOrder(c *Case) {
+	g := c.G()
+	src := c14MoTexts[c.Index%len(c14MoTexts)]
+	ast := mustParse(src)
+	d := c14MoDoc
+	for pass := 0; pass < 2; pass++ {
+		for _, mi := range g.R.Perm(len(c14MoMaps)) {
+			m := c14MoMaps[mi]
+			rc := xref.NewCtx(d.Root)
+			rc.NS, rc.UseNS = m, true
+			want, oof := xref.SafeEval(ast, rc)
+			if oof != "" {
+				panic("C14 maporder: reference: " + src + ": " + oof)
+			}
+			if strings.Contains(src, "//x") {
+				// an unprefixed test under a map: statement silent - only compiled, to sit between the others
+				safeCompileNS(src, m)
+				continue
+			}
+			ce, err := safeCompileNS(src, m)
+			if err != nil || ce == nil {
+				c.Violation("BOUND-PREFIXES-REJECTED", map[string]interface{}{"expr": src, "map": fmt.Sprint(m), "error": fmt.Sprint(err)})
+				return
+			}
+			got := c.RunEvaluate(ce, d.Root)
+			c.Count("maporder:evaluations")
+			if !sameValue(got, want) {
+				c.Violation("NAME-TEST-BY-URI", map[string]interface{}{"expr": src, "map": fmt.Sprint(m), "pass": pass, "doc": d.XML(), "expected": fmtValue(want), "observed": got.String(),
+					"note": "the same text was compiled under other maps before in this process"})
+				return
+			}
+			if g.Chance(0.3) {
+				safeCompile(src) // without a map the text compiles too (prefixes compared literally): must not disturb the next one
+				xpath.MustCompile(src)
+			}
+		}
+	}
+	c.Nontrivial(fmt.Sprintf("maporder|%s|%d", src, c.Index))
+	c.SampleEvery(11, func() interface{} {
+		return map[string]interface{}{"family": "maporder", "expr": src, "maps": len(c14MoMaps)}
+	})
 }
